@@ -22,6 +22,7 @@ import (
 	"github.com/kubewharf/kubebrain/pkg/backend"
 	"github.com/kubewharf/kubebrain/pkg/backend/coder"
 	"github.com/kubewharf/kubebrain/pkg/server"
+	"github.com/kubewharf/kubebrain/pkg/storage"
 
 	"verif/internal/harness"
 )
@@ -493,7 +494,8 @@ func runC15RealCampaign(c *harness.Case) {
 		c.Inconclusive(err.Error())
 		return
 	}
-	defer eng.Close()
+	// (the engine is never closed: the real election loop started below cannot be stopped and keeps renewing on it;
+	// closing Badger or the TiKV mock under it would end the worker from inside the engine)
 	id := "node-a:2380"
 	a := harness.NewNode(harness.NodeOpts{KV: eng.KV, SkipInit: true, Config: backend.Config{Identity: id}})
 	va, err := elect(a, id)
@@ -523,11 +525,36 @@ func runC15RealCampaign(c *harness.Case) {
 		return
 	}
 	maxStored := a.Dealt()
+	released := c.Index%16 == 15
+	if released {
+		// the old leader gives the lock back before it stops, as client-go's release() does on a clean shutdown
+		// (ReleaseOnCancel): the record then names no holder
+		lock := a.B.GetResourceLock()
+		if _, gerr := lock.Get(); gerr == nil {
+			if rerr := lock.Update(resourcelock.LeaderElectionRecord{LeaseDurationSeconds: 1, RenewTime: metav1.NewTime(time.Now())}); rerr == nil {
+				c.Stat("takeovers_of_a_released_lock", 1)
+			}
+		}
+	}
 	a.Retire()
 	// the same node restarts (same identity: client-go re-acquires its own lease at once)
 	rm := harness.NewRecMetrics(false)
 	rm.Slow = map[string]time.Duration{"leader.election.initial.version": 30 * time.Millisecond, "leader.election.success": 5 * time.Millisecond}
-	b := harness.NewNode(harness.NodeOpts{KV: eng.KV, SkipInit: true, Metrics: rm, Config: backend.Config{Identity: id}})
+	var bkv storage.KvStorage = eng.KV
+	if released {
+		// point reads of the lock record take 40 ms (a remote store): the election loop's next look at the record comes
+		// back only after the on-elected callback has read the lock's description
+		rm.Slow = map[string]time.Duration{"leader.election.initial.version": 30 * time.Millisecond}
+		sw := harness.NewWrap(eng.KV)
+		lockKey := []byte(harness.Prefix + "/election")
+		sw.AfterGet = func(key, val []byte, err error) {
+			if bytes.Equal(key, lockKey) {
+				time.Sleep(40 * time.Millisecond)
+			}
+		}
+		bkv = sw
+	}
+	b := harness.NewNode(harness.NodeOpts{KV: bkv, SkipInit: true, Metrics: rm, Config: backend.Config{Identity: id}})
 	defer b.Retire()
 	srv := server.NewServer(b.B, rm, server.Config{}) // starts the real Campaign
 	g, gerr := newGRPCNodeFor(srv.RegisterClient, rm)
